@@ -133,3 +133,76 @@ Fixpoint get_ok (k : kind) (p : path) {struct p} : bool :=
   | [] => true
   | s :: p' => seg_ok k s && get_ok (at_seg k s) p'
   end.
+
+(* ---------- insert ---------- *)
+
+(* objects with strictly increasing keys, hereditarily (what a BTreeMap is) *)
+Fixpoint wf_value (v : value) : bool :=
+  match v with
+  | VObj kvs => obj_sorted kvs
+                && (fix go (l : list (bytes * value)) : bool :=
+                      match l with [] => true | kv :: r => wf_value (snd kv) && go r end) kvs
+  | VArr vs => (fix go (l : list value) : bool :=
+                  match l with [] => true | x :: r => wf_value x && go r end) vs
+  | _ => true
+  end.
+
+Definition known_len (c : acoll) : nat :=
+  match max_opt (map fst (known c)) with Some l => S l | None => 0 end.
+
+(* every known entry has some defined state *)
+Definition all_defined {K} (c : coll_ K kind) : bool :=
+  forallb (fun kv => contains_any_defined (snd kv)) (known c).
+
+(* every known entry other than `key` may be missing *)
+Definition others_optional {K} (keqb : K -> K -> bool) (c : coll_ K kind) (key : K) : bool :=
+  forallb (fun kv => keqb (fst kv) key || p_undefined (prims_of (snd kv))) (known c).
+
+(* unknown positions below i that would be padded while hole filling is skipped (index i is known) *)
+Definition pads_ok (c : acoll) (i : nat) : bool :=
+  forallb (fun j => ahas Nat.eqb (known c) j || p_null (prims_of (unknown_kind c))) (seq 0 i).
+
+(* the array [null; ..; null; x] of length i+1 built from nothing fits c's known entries *)
+Definition idx_fresh_ok (c : acoll) (i : nat) : bool :=
+  forallb (fun kv => if Nat.ltb (fst kv) i then p_null (prims_of (snd kv))
+                     else if Nat.ltb i (fst kv) then p_undefined (prims_of (snd kv)) else true) (known c)
+  && (if ahas Nat.eqb (known c) i then pads_ok c i else true).
+
+(* padding an existing array up to index i: optional known elements below i must admit null *)
+Definition idx_pad_ok (c : acoll) (i : nat) : bool :=
+  forallb (fun kv => if Nat.ltb (fst kv) i
+                     then implb (p_undefined (prims_of (snd kv))) (p_null (prims_of (snd kv))) else true) (known c)
+  && match aget Nat.eqb (known c) i with
+     | Some ki => if p_undefined (prims_of ki) then pads_ok c i else true
+     | None => true
+     end.
+
+(* `ins_ok fresh k p`: Kind::insert at p is sound for a slot typed k.  fresh = the slot is vacant (so
+   the value-level insert builds the containers from nothing); otherwise it holds a member of k.
+   Excluded (each a known finding): coercion of a non-container while the kind's container has required
+   entries; padding over optional known elements that do not admit null; negative indices unless the
+   kind is exactly one array of known length that the index stays inside. *)
+Fixpoint ins_ok (fresh : bool) (k : kind) (p : path) {struct p} : bool :=
+  match p with
+  | [] => true
+  | SField f :: p' =>
+      let c := match obj_of k with Some c => c | None => coll_empty end in
+      let cur := coll_at bytes_eqb c f in
+      if fresh || negb (is_some (obj_of k)) then others_optional bytes_eqb c f && ins_ok true cur p'
+      else ins_ok false cur p'
+           && (if is_exact k && negb (p_undefined (prims_of cur)) then true else ins_ok true cur p')
+           && (is_exact k || others_optional bytes_eqb c f)
+  | SIndex i :: p' =>
+      let c := match arr_of k with Some c => c | None => coll_empty end in
+      if (i <? 0)%Z then
+        negb fresh && is_exact k && is_some (arr_of k) && all_required c && all_defined c
+        && negb (contains_any_defined (unknown_kind c)) && Nat.leb (Z.to_nat (- i)) (known_len c)
+        && ins_ok false (coll_at Nat.eqb c (known_len c - Z.to_nat (- i))) p'
+      else
+        let idx := Z.to_nat i in
+        let cur := coll_at Nat.eqb c idx in
+        if fresh || negb (is_some (arr_of k)) then idx_fresh_ok c idx && ins_ok true cur p'
+        else idx_pad_ok c idx && ins_ok false cur p'
+             && (if is_exact k && negb (p_undefined (prims_of cur)) then true else ins_ok true cur p')
+             && (is_exact k || idx_fresh_ok c idx)
+  end.
